@@ -43,6 +43,8 @@ class Peer:
         if self.enc_out:
             mk, k = self.keys["cmac"], self.keys["ckey"]
             body = K.tls_cbc_body(T, mk, k, self.wseq.to_bytes(8, "big"), hdr3, bytes(range(16)), payload)
+            if payload.startswith(BAD_MARK):            # a record whose integrity check cannot succeed: one ciphertext bit in the block that carries MAC octets
+                body = body[:len(body) - 20] + bytes([body[len(body) - 20] ^ 0x10]) + body[len(body) - 19:]
             self.wseq += 1
         else:
             body = payload
@@ -92,6 +94,7 @@ def split_certs(der):
     return out
 
 
+BAD_MARK = b"not-authentic:"                         # payload prefix of a record that is sent with a broken MAC / tag (post_hs_badmac)
 POST_MARK = bytes((i * 29 + 101) & 255 for i in range(48))          # recognisable plaintext of the post-handshake records below (C19 searches fd 1/2 for it)
 
 
@@ -112,6 +115,14 @@ def degenerate_sig(deviation, sig):
     return sig
 
 
+def post_list(deviation):
+    """the records a peer sends right after the handshake when asked to (before its ordinary application data)"""
+    if deviation == "post_hs_data_then_badmac":       # genuine application data, then a record whose MAC / tag does not verify
+        return [(23, b"early"), post_hs("post_hs_badmac")]
+    r = post_hs(deviation)
+    return [r] if r else []
+
+
 def post_hs(deviation):
     """(record / inner content type, payload) a peer sends right after the handshake when asked to: a protected record that is NOT application data"""
     if deviation == "post_hs_handshake":
@@ -124,6 +135,8 @@ def post_hs(deviation):
         return 0, b""
     if deviation == "post_hs_zero16":
         return 0, bytes(16)
+    if deviation == "post_hs_badmac":         # application data whose MAC / tag does not verify (what an on-path change of a record looks like to the receiver)
+        return 23, BAD_MARK + POST_MARK
     if deviation == "post_hs_alert1":         # an alert record that is not two octets long
         return 21, b"\x02"
     if deviation == "post_hs_alert3":
@@ -231,7 +244,7 @@ def tlcp_client(sock, deviation, client_chain=b"", client_d=0, other_d=12345, pr
     exp = prf(master, b"server finished", sm3(p.transcript), 12)
     res["server_finished_ok"] = (r[0] == 22 and r[1][:1] == b"\x14" and r[1][4:16] == exp)
     res["completed"] = True
-    if post_hs(deviation): p.send_record(*post_hs(deviation))
+    for _r in post_list(deviation): p.send_record(*_r)
     p.send_record(23, b"ping")
     return res
 
@@ -251,6 +264,8 @@ class Peer13:
     def send_plain(self, rtype, payload): self.s.sendall(bytes([rtype]) + b"\x03\x03" + u16(len(payload)) + payload)
     def send_enc(self, rtype, payload):
         body = K.tls13_body(T, self.wk[0], self.wk[1], self.wseq.to_bytes(8, "big"), rtype, payload, 0); self.wseq += 1
+        if payload.startswith(BAD_MARK):                # ... here: one bit of the tag
+            body = body[:-1] + bytes([body[-1] ^ 0x10])
         self.s.sendall(b"\x17\x03\x03" + u16(len(body)) + body)
     def send_hs(self, t, body, enc=True):
         m = maybe_mutate(self.mut, t, hs(t, body))[:16384]; self.transcript += m
@@ -330,7 +345,7 @@ def tls13_client(sock, deviation, client_chain=b"", client_d=0, other_d=12345, m
     if deviation == "finished_plain": p.send_hs(20, vd, enc=False)
     elif deviation != "no_finished": p.send_hs(20, vd)
     p.set_write(cap); p.set_read(sap)
-    if post_hs(deviation): p.send_enc(*post_hs(deviation))
+    for _r in post_list(deviation): p.send_enc(*_r)
     p.send_enc(23, b"ping")
     # the server reports completion in its own trace; from here the peer only learns it by an alert or a hang-up
     p.s.settimeout(3)
@@ -417,7 +432,7 @@ def cbc_server(sock, proto, deviation, chain_der, sign_d, enc_d=0, other_d=54321
     vd = wrong_finished(deviation, vd)
     p.send_hs(20, vd)
     p.enc_out = True
-    if post_hs(deviation): p.send_record(*post_hs(deviation))
+    for _r in post_list(deviation): p.send_record(*_r)
     p.send_record(23, b"ping")
     return {"completed": True}
 
@@ -476,7 +491,7 @@ def tls13_server(sock, deviation, chain_der, sign_d, other_d=54321, mut=None):
     fkc = xlabel(chs, b"finished", b"", 32)
     ok = r[1][:1] == b"\x14" and r[1][4:36] == K.hmac(T, "sm3", fkc, sm3(p.transcript))
     p.set_write(sap); p.set_read(cap)
-    if post_hs(deviation): p.send_enc(*post_hs(deviation))
+    for _r in post_list(deviation): p.send_enc(*_r)
     p.send_enc(23, b"ping")
     return {"completed": ok}
 
